@@ -155,6 +155,20 @@ def gen_zero_case(rng):
             "scheme": "max%+d" % top if top else "max0", "hmode": "none", "kind": "ids-around-zero"}
 
 
+def gen_edited_case(rng):
+    """the molecule is a graph OBJECT that the same FGQuery has already been asked about and that the caller then edited in
+    place (get(g), edit g, get(g)): the judged answer is the second one, against the contents after the edit"""
+    c = gen_case(rng)
+    if len(c["graph"]) == 0:
+        return c
+    ed = fc.rand_edits(rng, c["graph"])
+    events = [{"op": "get", "obj": "g"}, {"op": "edit", "obj": "g", "edits": ed}, {"op": "get", "obj": "g"}]
+    c["pre_graph"], c["pre_events"] = c["graph"], events
+    c["graph"] = fc.play(events, c["pre_graph"])[-1][0]
+    c["kind"] = "edited-in-place"
+    return c
+
+
 def generate(seed, tier, ncases=None):
     quick = tier == "quick"
     n = ncases or (220 if quick else 8000)
@@ -168,6 +182,8 @@ def generate(seed, tier, ncases=None):
             cases.extend(gen_ring_pattern_cases(lib.rng_for(seed, ID, 800000 + 100 * rep + j), pat, writings=1 if quick or ncases else 2))
     for j in range(max(2, (ncases // 12) if ncases else (30 if quick else 600))):
         cases.append(gen_zero_case(lib.rng_for(seed, ID, 900000 + j)))
+    for j in range(max(2, (ncases // 15) if ncases else (20 if quick else 500))):
+        cases.append(gen_edited_case(lib.rng_for(seed, ID, 950000 + j)))
     attach_outputs(cases)
     for c in cases:
         yield c
@@ -177,10 +193,16 @@ def attach_outputs(cases):
     """run the implementation on all generated cases in parallel fresh interpreters (PYTHONHASHSEED=0, a fresh
     FGQuery object per case) instead of one after the other in this process; run_impl falls back to an in-process
     run for corpus and replay cases"""
-    jobs = [{"kind": "query", "specs": c["specs"], "req_h": c["req_h"], "graph": ct.graph_py(c["graph"])} for c in cases]
+    jobs = []
+    for c in cases:
+        if "pre_events" in c:
+            jobs.append({"kind": "editseq", "specs": c["specs"], "req_h": c["req_h"], "graph": ct.graph_py(c["pre_graph"]),
+                         "events": c["pre_events"]})
+        else:
+            jobs.append({"kind": "query", "specs": c["specs"], "req_h": c["req_h"], "graph": ct.graph_py(c["graph"])})
     res = fc.run_all_seeds(jobs, ["0"], parallel=14, pieces=14)["0"]
     for c, r in zip(cases, res):
-        a = r["answers"][0]
+        a = r["answers"][-1] if "pre_events" in c else r["answers"][0]
         if a[0] == "ok":
             c["_out"] = ("ok", [(nm, list(ids)) for nm, ids in a[1]])
         else:
@@ -268,6 +290,11 @@ def _corpus():
 def run_impl(c):
     if "_out" in c:
         return c["_out"]
+    if "pre_events" in c:
+        outs = fc.run_editseq(c["specs"], c["req_h"], c["pre_graph"], c["pre_events"])
+        c["_mutated"] = any(o[0] == "MUTATED" for o in outs)
+        last = outs[-1]
+        return last[1] if last[0] == "MUTATED" else last
     g = gens.copy_exact(c["graph"])
     out = fc.run_query(c["specs"], c["req_h"], g, repeats=1)[0]
     c["_mutated"] = not gens.graphs_identical(g, c["graph"])
@@ -342,13 +369,21 @@ def known_witness_fails(entry):
 
 
 def describe(c):
-    return {"graph": ct.graph_py(c["graph"]), "specs": c["specs"], "req_h": c["req_h"], "scheme": c["scheme"],
-            "hmode": c["hmode"], "kind": c["kind"]}
+    d = {"graph": ct.graph_py(c["graph"]), "specs": c["specs"], "req_h": c["req_h"], "scheme": c["scheme"],
+         "hmode": c["hmode"], "kind": c["kind"]}
+    if "pre_events" in c:
+        d["pre_graph"] = ct.graph_py(c["pre_graph"])
+        d["pre_events"] = c["pre_events"]
+    return d
 
 
 def from_json(d):
-    return {"graph": ct.graph_from_py(d["graph"]), "specs": d["specs"], "req_h": d["req_h"], "scheme": d.get("scheme", "replay"),
-            "hmode": d.get("hmode", "?"), "kind": d.get("kind", "replay")}
+    c = {"graph": ct.graph_from_py(d["graph"]), "specs": d["specs"], "req_h": d["req_h"], "scheme": d.get("scheme", "replay"),
+         "hmode": d.get("hmode", "?"), "kind": d.get("kind", "replay")}
+    if "pre_events" in d:
+        c["pre_graph"] = ct.graph_from_py(d["pre_graph"])
+        c["pre_events"] = d["pre_events"]
+    return c
 
 
 def describe_out(out):
